@@ -323,7 +323,9 @@ Country codes are two letters.  A code "carries a country prefix" when its first
 two characters are one of the codes of the identity (its country, or an
 alternative code the regime names: `GR` for Greece, `XI`/`XU` for the United
 Kingdom); the normalised code is what is left when every such leading code has
-been removed. -/
+been removed.  The country of the identity is the one it has *after* normalisation:
+Greece is written `GR` (ISO) or `EL` (tax country code) and always returned as `EL`,
+so both `EL` and `GR` are its codes under either spelling. -/
 def stripCodes (codes : List Str) : Str → Str
   | a :: b :: rest => if codes.contains [a, b] then stripCodes codes rest else a :: b :: rest
   | s => s
